@@ -133,7 +133,7 @@ def filt(k, n):
             out = r.stdout
         except subprocess.TimeoutExpired:
             out = "could not compile (timeout)"
-        ok = "could not compile" not in out and "test result: FAILED" not in out and "error:" not in out and "test result: ok" in out
+        ok = "could not compile" not in out and "test result: FAILED" not in out and "error[" not in out and "panicked" not in out and "test result: ok" in out
         os.makedirs(d, exist_ok=True)
         if not ok:
             open(os.path.join(d, "rejected"), "w").write(out[-600:])
